@@ -204,13 +204,18 @@ def main():
     # --- obligations ---
     vfile = os.path.join(COQ, prop["src"])
     thms = theorem_names(vfile)
-    ok_support, out_support = coq_make(prop.get("support", []) + prop.get("run_targets", []), log)
+    # the run targets (checkers used by cases.v) decide whether the implementation can be run and judged;
+    # further support targets (proof files tied to extracted facts) only count as obligations
+    ok_run, out_run = coq_make(prop.get("run_targets", []), log)
+    ok_support, out_support = coq_make(prop.get("support", []), log)
     ok_prop, out_prop = coq_make([prop["target"]], log)
     assumptions = []
     if ok_prop:
         _, assumptions, _ = parse_assumptions(vfile)
     discharged = len(thms) if ok_prop else 0
     broken = []
+    if not ok_run:
+        broken.append(("run-targets", out_run[-3000:]))
     if not ok_support:
         broken.append(("support", out_support[-3000:]))
     if not ok_prop:
@@ -228,7 +233,7 @@ def main():
     fails = []   # dicts: kind, driver, case_input, detail
     disagreements = []
     all_obs = []
-    if ok_support:
+    if ok_run:
         jobs = []
         for d in prop["drivers"]:
             n = d.get("n_" + tier, d.get("n_quick", 100)) * mult
